@@ -2,8 +2,9 @@ import Driver.FilterTables
 /-!
 Driver for C20 (one case = one `restic restore` with pattern flags, optionally `--delete` into a
 pre-populated target).
-  node <hex path> f|d|o <size>     listing of the snapshot
+  node <hex path> f|d|o|s <size>   listing of the snapshot (s = socket)
   ex|iex|in|iin <hex pattern>      flag values
+  exf|iexf|inf|iinf <hex line>*    one record per pattern file (its lines)
   delete 0|1
   pre <hex path> f|d|o             entries in the target before the restore ("/rel/path")
   clean / glob                     stdlib oracle tables
